@@ -38,8 +38,8 @@ type Server struct {
 	SQLRun       bool   // SQL thread started
 	LastIOErrno  int
 	LastSQLErrno int
-	SSReg        bool // IO thread registered as semi-sync when it last started
-	StickyErr    bool // replication errors come back after every START (permanent breakage)
+	SSReg        bool   // IO thread registered as semi-sync when it last started
+	StickyErr    bool   // replication errors come back after every START (permanent breakage)
 	StickySource string // if set, StickyErr holds only while the server points at this source
 	// RecurErr: an applier error that comes back whenever the SQL thread starts, also after RESET + CHANGE SOURCE
 	// (the offending transaction is fetched again by auto-position)
